@@ -369,6 +369,29 @@ fn sweep_sentences(cyc: &Cycle, rec: &Recorder, thorough: bool) -> Tally {
     t
 }
 
+/// long call histories on one thread: string A, N other strings, string A' (N = 2^k - 2 .. 2^k + 1, k = 4..=16), through the
+/// string route and the footer route
+fn sweep_long_histories(cyc: &Cycle, rec: &Recorder) -> Tally {
+    let mut tl = Tally::default();
+    let a = ["EST5EDT,M3.2.0,M11.1.0", "CET-1CEST,M3.5.0,M10.5.0/3", "<+1030>-10:30<+11>-11,M10.1.0,M4.1.0", "EST5EDT,M3.2.0,M11.1.0/3"];
+    let fillers = ["UTC0", "JST-9", "<+03>-3", "HST10", "AAA0BBB,J60,J300", "bad string", "XYZ5:30"];
+    let mut j = 0usize;
+    for k in 4..=16u32 {
+        for d in [-2i64, -1, 0, 1] {
+            let n = ((1i64 << k) + d) as usize;
+            let mode = if j % 2 == 0 { Mode::Settings } else { Mode::FooterV3 };
+            check_string(cyc, a[j % 4].as_bytes(), mode, rec, "long_histories", &mut tl, false);
+            for f in 0..n {
+                check_string(cyc, fillers[f % fillers.len()].as_bytes(), mode, rec, "long_histories", &mut tl, false);
+            }
+            check_string(cyc, a[(j + 1) % 4].as_bytes(), mode, rec, "long_histories", &mut tl, false);
+            j += 1;
+        }
+    }
+    rec.sub("long_histories", json!({"evaluations": tl.evals}));
+    tl
+}
+
 fn sweep_edits(cyc: &Cycle, rec: &Recorder, two_edit_shortest: usize) -> Tally {
     let modes = [Mode::Settings, Mode::FooterV2, Mode::FooterV3];
     let core = core_sentences();
@@ -504,6 +527,9 @@ pub fn run(args: &Args) -> i32 {
     }
     total = total.merge(sweep_sentences(&cyc, &rec, thorough));
     total = total.merge(sweep_edits(&cyc, &rec, if thorough { 10 } else { 4 }));
+    if !args.digest_mode {
+        total = total.merge(sweep_long_histories(&cyc, &rec));
+    }
     // special values of the settings path
     let mut tl = Tally::default();
     for s in ["", "localtime", ":", ":UTC0", " UTC0 ", "\tUTC0\n", "\u{b}UTC0", "UTC0\u{b}", "\u{c}UTC0\u{c}", "\rUTC0\r", "UTC0\u{a0}", "\u{85}UTC0", "UTC0\u{2003}", "\u{3000}EST5EDT,M3.2.0,M11.1.0\u{2028}", "UTC0\u{feff}", "\u{1680}UTC0", "UTC0\u{200b}"] {
